@@ -71,6 +71,11 @@ func smtTextF(fv *FuncVC, o *Obligation, formula, extra string, forCVC5 bool) st
 		}
 	} else {
 		for _, l := range fv.VC.sliceLines(o.NDecls, o.Guard+" "+formula+" "+extra) {
+			if o.Expect == "sat" && strings.HasPrefix(l, "(assert") && (strings.Contains(l, "(forall ") || strings.Contains(l, "(exists ")) {
+				// reachability covers: quantified assumptions are left out so that the solver can answer sat (a cover
+				// that is sat without them says the point is reachable under the ground assumptions)
+				continue
+			}
 			b.WriteString(l)
 			b.WriteByte('\n')
 		}
@@ -123,7 +128,15 @@ func runSolverCtx(parent context.Context, sp solverSpec, file string, secs, seed
 	_ = cmd.Run()
 	dur = time.Since(t0).Seconds()
 	out = buf.String()
-	first := strings.TrimSpace(strings.SplitN(out, "\n", 2)[0])
+	first := ""
+	for _, ln := range strings.Split(out, "\n") {
+		ln = strings.TrimSpace(ln)
+		if ln == "" || strings.HasPrefix(ln, "WARNING") || strings.HasPrefix(ln, "(warning") {
+			continue // e.g. z3's "cannot be used in patterns" for a trigger the simplifier rewrote
+		}
+		first = ln
+		break
+	}
 	switch first {
 	case "sat", "unsat":
 		return first, out, dur
@@ -140,7 +153,9 @@ func runSolverCtx(parent context.Context, sp solverSpec, file string, secs, seed
 func solveQuery(name, text, textCVC5 string, budget int, seed int, fp bool) (status, solver, out string, secs float64, file string) {
 	file = filepath.Join(workDir, sanitizeFile(name)+".smt2")
 	_ = os.WriteFile(file, []byte(text), 0o644)
-	first := budget / 4
+	// a short solo attempt with the newest z3 settles almost every query in well under a second; what it does not
+	// settle in a few seconds is usually settled at once by one of the others, so the race starts early
+	first := budget / 10
 	if first < 3 {
 		first = 3
 	}
@@ -273,6 +288,7 @@ func SolveAll(fvs []*FuncVC, want func(*Obligation) bool, budget, fpBudget, seed
 	// query texts are produced sequentially (the VC's caches are not thread-safe)
 	type qtext struct{ txt, txtC string }
 	texts := make([]qtext, len(jobs))
+	altTexts := make([][]qtext, len(jobs))
 	for i, j := range jobs {
 		extra := ""
 		if j.kf != nil && !strings.HasPrefix(j.extra, "!") {
@@ -286,6 +302,14 @@ func SolveAll(fvs []*FuncVC, want func(*Obligation) bool, budget, fpBudget, seed
 			extra = and(extra, j.guard)
 		}
 		texts[i] = qtext{smtTextF(j.fv, j.o, j.formula, extra, false), smtTextF(j.fv, j.o, j.formula, extra, true)}
+		// fallback texts, one per return path, for obligations checked at the merged returns: tried when the
+		// whole query comes back unknown (quantified goals instantiate badly through the ite-merged results)
+		if j.guard == "" && j.o.Expect == "" && len(j.o.AltGuards) > 1 && len(j.o.AltGuards) <= 8 && j.region != "inside" {
+			for _, ag := range j.o.AltGuards {
+				ex := and(extra, ag)
+				altTexts[i] = append(altTexts[i], qtext{smtTextF(j.fv, j.o, j.formula, ex, false), smtTextF(j.fv, j.o, j.formula, ex, true)})
+			}
+		}
 	}
 	results := make([]*Result, len(jobs))
 	var wg sync.WaitGroup
@@ -327,6 +351,23 @@ func SolveAll(fvs []*FuncVC, want func(*Obligation) bool, budget, fpBudget, seed
 			}
 			name += fmt.Sprintf("~%d", i)
 			st, solver, out, secs, file := solveQuery(name, txt, txtC, b, seed, fp)
+			if st != "unsat" && st != "sat" && st != "error" && len(altTexts[i]) > 0 {
+				// path by path
+				all := true
+				for k, at := range altTexts[i] {
+					st2, solver2, out2, secs2, file2 := solveQuery(fmt.Sprintf("%s.path%d", name, k), at.txt, at.txtC, b, seed, fp)
+					secs += secs2
+					if st2 != "unsat" {
+						all = false
+						st, solver, out, file = st2, solver2, out2, file2
+						break
+					}
+					solver = solver2
+				}
+				if all {
+					st = "unsat"
+				}
+			}
 			r := &Result{Obl: j.o, FV: j.fv, Solver: solver, Secs: secs, Output: out, File: file, Region: j.region}
 			switch {
 			case j.o.Expect == "sat":
